@@ -9,7 +9,7 @@ from vlib.pyvc import interp as I
 def proved(run):
     run.trust("pyvc symbolic interpreter over the real AST", f"z3 {z3.get_version_string()}")
     run.assume("T-TOCFG: the right-/left-linear grammar of an automaton with disjoint state and symbol names has the automaton's series (assumed)", 'T-UTF8')
-    for f in (C.to_cfg, C.to_cfg_wf, C2.c17_to_bytes_fresh):
+    for f in (C.to_cfg, C.to_cfg_wf, C2.c17_to_bytes_fresh, C2.c17_cfg_to_bytes):
         try:
             f(run)
         except (I.OutOfSubset, KeyError) as e:
